@@ -451,6 +451,11 @@ structure Params where
   cap : Id → Nat
   xin : Id
   claimFee : Nat
+  /-- oracle (real `Asset.Verify`, through the harness): is this asset key well formed, i.e. non-empty and
+      without surrounding white space? The chain rule of `Asset.Verify` is `chain ≠ 0` (0 = the zero hash). -/
+  akeyOk : Id → Bool := fun _ => true
+  /-- oracle: is the deposit's transaction string well formed (non-empty, no surrounding white space)? -/
+  depTxOk : Id → Bool := fun _ => true
 
 /-- `validateReferences` -/
 def refsFinalized (st : State) (tx : Tx) : Bool :=
@@ -540,6 +545,9 @@ def validateType (P : Params) (st1 : State) (tx : Tx) (us : List UTXO) : Bool :=
     (match tx.inputs, tx.outputs with
      | [.deposit key chain akey amount], [o] =>
        o.typ = .script &&
+       -- verifyDepositData, in the order of the code: the format of the deposit's own data is checked
+       -- before anything is read from the store, hence also for the first deposit of an unseen asset
+       (chain ≠ 0 && P.akeyOk akey) && P.depTxOk key &&
        (match aget st1.assetInfo tx.asset with
         | none => true
         | some old => readTotal st1 tx.asset + amount < P.cap tx.asset && old = (chain, akey)) &&
